@@ -1,6 +1,7 @@
 ---------------------------- MODULE MC_AutoStream -----------------------------
 (* C08: every sequence of up to Depth write-family calls (write, write_all,      *)
-(* write_vectored, formatted write, flush) over a set of fragments that cut       *)
+(* write_vectored, formatted write, flush, and at most one lock) over fragments   *)
+(* that cut                                                                       *)
 (* escape sequences and characters in awkward places.  Design-level invariant:    *)
 (* what the strip-mode design (Strip!ScanBytes, one chunk per call) keeps is      *)
 (* exactly the reference's visible text of the concatenation - independent of     *)
@@ -25,6 +26,10 @@ Step(op, k) ==
 Next == /\ Len(hist) < Depth
         /\ \/ \E op \in Ops, k \in 1..Len(Frags) : (op = "write_fmt" => TextFrag(k)) /\ Step(op, k)
            \/ /\ hist' = Append(hist, <<"flush", <<>>>>) /\ UNCHANGED <<sc, kept, all>>
+           \* AutoStream::lock / StripStream::lock (standard streams only): the locked stream continues with the
+           \* same mode and the same carried scanner state - a no-op on everything the specification tracks
+           \/ /\ \A i \in 1..Len(hist) : hist[i][1] # "lock"
+              /\ hist' = Append(hist, <<"lock", <<>>>>) /\ UNCHANGED <<sc, kept, all>>
 Spec == Init /\ [][Next]_vars
 Select(s, q) == LET RECURSIVE Sel(_)
                     Sel(i) == IF i > Len(s) THEN <<>> ELSE (IF q[i] = "K" THEN <<s[i]>> ELSE <<>>) \o Sel(i + 1)
